@@ -108,7 +108,7 @@ def guardAst2 : List (String × List GStep) := [
     GStep.guard (GCond.extFails 2) GOut.err])]
 
 /-- number of error returns AFTER the translated prefix (for a `forEachWork` loop: in the rest of its body): (operation, count) -/
-def lateErrors2 : List (String × Nat) := [("Sort", 0), ("Distinct", 0), ("GroupBy", 0), ("Aggregate", 2), ("QFrames", 0), ("apply0", 2), ("apply1", 2), ("apply2", 1), ("FilteredApply", 0), ("WithRowNums", 0), ("Eval", 0), ("Filter", 0), ("filterLeaf", 2), ("Equals", 0), ("ToCSV", 3), ("ToJSON", 3), ("ToSQL", 2), ("ReadCSV", 0), ("ReadJSON", 0), ("ReadSQL", 0), ("ReadSQLWithArgs", 0)]
+def lateErrors2 : List (String × Nat) := [("Sort", 0), ("Distinct", 0), ("GroupBy", 0), ("Aggregate", 2), ("QFrames", 0), ("apply0", 2), ("apply1", 2), ("apply2", 1), ("FilteredApply", 0), ("WithRowNums", 0), ("Eval", 1), ("Filter", 0), ("filterLeaf", 2), ("Equals", 0), ("ToCSV", 3), ("ToJSON", 3), ("ToSQL", 2), ("ReadCSV", 0), ("ReadJSON", 0), ("ReadSQL", 0), ("ReadSQLWithArgs", 0)]
 
 /-- `return recv.m(…)` / `return F(…)` / `return <parameter>.m(…)` after the prefix: (operation, callee by role: an exported name, `set`, `apply0`…, `filterLeaf`, `parameter`, else `helper`) -/
 def openTails2 : List (String × String) := [("apply0", "Copy"), ("apply0", "set"), ("apply1", "set"), ("apply2", "set"), ("WithRowNums", "Apply"), ("Filter", "parameter"), ("ReadCSV", "New"), ("ReadJSON", "New"), ("ReadSQL", "ReadSQLWithArgs"), ("ReadSQLWithArgs", "New")]
